@@ -31,7 +31,7 @@ Section NodeInd.
   Hypothesis H_if : forall t c a b, OptP P c -> OptP P a -> OptP P b -> P (NIf t c a b).
   Hypothesis H_builtin : forall t ps, SliceP P ps -> P (NBuiltin t ps).
   Hypothesis H_func : forall t nm ps b v lam, SliceP P ps -> OptP P b -> P (NFunc t nm ps b v lam).
-  Hypothesis H_call : forall t fn args, SliceP P args -> P (NCall t fn args).
+  Hypothesis H_call : forall t fn args, OptP P fn -> SliceP P args -> P (NCall t fn args).
   Hypothesis H_array : forall t e, SliceP P e -> P (NArray t e).
   Hypothesis H_index : forall t l i, OptP P l -> OptP P i -> P (NIndex t l i).
   Hypothesis H_map : forall t l, PairsP P l -> P (NMap t l).
@@ -72,7 +72,7 @@ Section NodeInd.
     | NIf t c a b => H_if t c a b (opt_ind node_ind' c) (opt_ind node_ind' a) (opt_ind node_ind' b)
     | NBuiltin t ps => H_builtin t ps (slice_ind node_ind' ps)
     | NFunc t nm ps b v lam => H_func t nm ps b v lam (slice_ind node_ind' ps) (opt_ind node_ind' b)
-    | NCall t fn args => H_call t fn args (slice_ind node_ind' args)
+    | NCall t fn args => H_call t fn args (opt_ind node_ind' fn) (slice_ind node_ind' args)
     | NArray t e => H_array t e (slice_ind node_ind' e)
     | NIndex t l i => H_index t l i (opt_ind node_ind' l) (opt_ind node_ind' i)
     | NMap t l => H_map t l (pairs_ind node_ind' l)
@@ -260,9 +260,12 @@ Section Spec.
       rewrite (L_pslice ps H Hw1). destruct (any_params name (bails name) ps); simpl; [reflexivity|].
       rewrite (L_body b H0 Hw2). destruct (fold_opt (bails name) false b); reflexivity.
     - (* call *)
-      rewrite (L_slice args H Hwf). destruct (any_slice (bails name) args); simpl; [reflexivity|].
-      destruct fn as [c|]; [|reflexivity].
-      destruct (is_ident_of name c); reflexivity.
+      apply andb_prop in Hwf as [Hw1 Hw2].
+      rewrite (L_child fn H Hw1). destruct (fold_opt (bails name) false fn); simpl; [reflexivity|].
+      rewrite (L_slice args H0 Hw2). destruct (any_slice (bails name) args); simpl; [reflexivity|].
+      destruct fn as [c|]; simpl; [|reflexivity].
+      rewrite subst_is_reg_of.
+      destruct (is_ident_of name c || is_reg_of name c); reflexivity.
     - (* array *)
       rewrite (L_slice e H Hwf). destruct (any_slice (bails name) e); reflexivity.
     - (* index *)
